@@ -32,6 +32,7 @@ func runC15(c *Ctx) {
 	c15Offset(c)
 	c15ExcludedDial(c)
 	c15Round3(c)
+	c15RestoreNotifiesEverySet(c, "OFFSET")
 }
 
 func c15Chain(c *Ctx) {
